@@ -598,7 +598,7 @@ pub fn main(args: &crate::Args) {
     }
     let seed = rep.seed;
     // deviation-bounded neighbourhood of the default configuration
-    let bound = if quick { 2 } else { 3 };
+    let bound = crate::explore::bound_or(if quick { 2 } else { 3 });
     let limit = if quick { 0 } else { 0 };
     let (mut tapes, capped) = collect_tapes(bound, limit, |t| {
         let _ = config_from(t);
